@@ -10,7 +10,7 @@
 // output:     schema <id> <kind> <loaded 0|1> / nsyl / syl / e (raw table walk, as c06_harness) / per input:
 //             in <hex> / g <interp> <inputlen> <edge starts> <last vertex type> / gi <start> <syll> <end> <type> <cred bits>
 //             lk <predict> / L <end> <texthex> <code ids> <weight double bits> <matching_code_size> <remaining_code_length>
-//             pv <len> <sid:type,...|-> / px <len> <sid:type,...|->   (table)
+//             pv <len> <sid:type,...|-> / px <len> <sid:type,...|-> / cps <start> <len> <sid:type,...>   (table)
 //             c <type> <start> <end> <texthex> <commenthex> [<code ids> <weight double bits> <matching_code_size>] / endin
 #include "hcommon.h"
 #include <fstream>
@@ -172,6 +172,12 @@ int main(int argc, char** argv) {
           bool prefix_ok = k10.size() == std::min<size_t>(10, keys.size());
           for (size_t i = 0; prefix_ok && i < k10.size(); ++i) prefix_ok = k10[i].value == keys[i].value && k10[i].length == keys[i].length;
           printf("pm %d\n", prefix_ok ? 1 : 0);
+          // what MakeSentence (enable_sentence) works from: CommonPrefixSearch of every rest of the (untrimmed) input
+          for (size_t sp = 0; sp < input.length(); ++sp) {
+            std::vector<Prism::Match> ms;
+            dict->prism()->CommonPrefixSearch(input.substr(sp), &ms);
+            for (auto& m : ms) printf("cps %zu %zu %s\n", sp, m.length, spell_list(dict->prism().get(), m.value).c_str());
+          }
         }
       }
       // the candidate list through a session
